@@ -137,10 +137,11 @@ type hCfg struct {
 	Version     uint32
 	MinInterval uint64
 	HasPred     bool
+	Verbose     bool
 }
 
 func jCfg(v any) hCfg {
-	return hCfg{F: jInt(jget(v, "f")), Version: jU32(jget(v, "version")), MinInterval: jU64(jget(v, "minInterval")), HasPred: jBool(jget(v, "hasPred"))}
+	return hCfg{F: jInt(jget(v, "f")), Version: jU32(jget(v, "version")), MinInterval: jU64(jget(v, "minInterval")), HasPred: jBool(jget(v, "hasPred")), Verbose: jBool(jget(v, "verbose"))}
 }
 
 var allFormats = []llotypes.ReportFormat{1, 2, 3, 4, 5, 6, 7, 8, 9, 10, 11, 12, 42}
@@ -170,7 +171,7 @@ func newPlugin(c hCfg, missingFormats map[uint32]bool, telemetry bool) (*hPlugin
 		return nil, err
 	}
 	params := llo.PluginFactoryParams{
-		Config:                           llo.Config{VerboseLogging: false},
+		Config:                           llo.Config{VerboseLogging: c.Verbose},
 		PredecessorRetirementReportCache: hp.cache,
 		ShouldRetireCache:                hp.retire,
 		RetirementReportCodec:            llo.StandardRetirementReportCodec{},
